@@ -907,7 +907,10 @@ func (a *typedArrayObject) deleteStr(name unistring.String, throw bool) bool {
 	idx, ok := strToIntNum(name)
 	if ok {
 		if a.isValidIntegerIndex(idx) {
-			a.val.runtime.typeErrorResult(throw, "Cannot delete property '%d' of %s", idx, a.val.String())
+			if throw {
+				// the message is only built when it is needed: stringifying the object runs user code
+				a.val.runtime.typeErrorResult(true, "Cannot delete property '%d' of %s", idx, a.val.String())
+			}
 			return false
 		}
 		return true
@@ -920,7 +923,10 @@ func (a *typedArrayObject) deleteStr(name unistring.String, throw bool) bool {
 
 func (a *typedArrayObject) deleteIdx(idx valueInt, throw bool) bool {
 	if a.viewedArrayBuf.ensureNotDetached(false) && idx >= 0 && int64(idx) < int64(a.length) {
-		a.val.runtime.typeErrorResult(throw, "Cannot delete property '%d' of %s", idx, a.val.String())
+		if throw {
+			// the message is only built when it is needed: stringifying the object runs user code
+			a.val.runtime.typeErrorResult(true, "Cannot delete property '%d' of %s", idx, a.val.String())
+		}
 		return false
 	}
 
